@@ -630,3 +630,60 @@ pub fn closure_result(r: &mut Prng) -> T {
     }
     t
 }
+
+/// `case` on a constr with MORE fields than the selected branch has leading lambdas: the left-over
+/// fields are applied, in field order, to whatever the branch body returns — here an order-sensitive
+/// function (a builtin, partially applied or not, or a curried lambda returning a non-commutative
+/// combination), so the order of application is visible in the result
+pub fn case_leftover(r: &mut Prng) -> T {
+    use uplc::builtins::DefaultFunction as F;
+    let int = |n: i64| con(Constant::Integer(BigInt::from(n)));
+    // (arity consumed by the body's result, body, argument maker)
+    let shape = r.below(6);
+    let (extra, body): (usize, T) = match shape {
+        0 => (2, Term::Builtin(F::SubtractInteger)),
+        1 => (2, Term::Builtin(F::LessThanInteger)),
+        2 => (2, Term::Builtin(F::AppendByteString)),
+        3 => (3, force(Term::Builtin(F::IfThenElse))),
+        // \p q -> p - 2q  (a curried lambda: the machine pushes the fields itself)
+        4 => (2, lam(lam(app(app(Term::Builtin(F::SubtractInteger), var(2)), app(app(Term::Builtin(F::MultiplyInteger), int(2)), var(1)))))),
+        // a partial application: one argument already given
+        _ => (1, app(Term::Builtin(F::SubtractInteger), int(100))),
+    };
+    let lead = r.below(3); // leading lambdas of the branch, each ignoring its field
+    let mut branch = body;
+    for _ in 0..lead {
+        // the body mentions no variable, so no index needs shifting
+        branch = lam(branch);
+    }
+    let mut fields: Vec<T> = vec![];
+    for i in 0..lead {
+        fields.push(match r.below(3) {
+            0 => int(1000 + i as i64),
+            1 => con(Constant::Unit),
+            _ => delay(int(7)),
+        });
+    }
+    match shape {
+        2 => {
+            fields.push(con(Constant::ByteString(vec![1, 2])));
+            fields.push(con(Constant::ByteString(vec![3])));
+        }
+        3 => {
+            fields.push(con(Constant::Bool(r.chance(1, 2))));
+            fields.push(int(1));
+            fields.push(int(2));
+        }
+        _ => {
+            for j in 0..extra {
+                fields.push(int(3 + 7 * j as i64 + r.range(0, 3)));
+            }
+        }
+    }
+    let tag = r.below(3);
+    let mut branches: Vec<T> = vec![];
+    for b in 0..=tag {
+        branches.push(if b == tag { branch.clone() } else { Term::Error });
+    }
+    Term::Case { constr: Rc::new(Term::Constr { tag, fields }), branches }
+}
